@@ -244,16 +244,16 @@ func c10(c *Ctx) {
 			if !cc.IsInvoke() {
 				continue
 			}
-			if cc.Method.Name() != "Read" && cc.Method.Name() != "ReadByte" && cc.Method.Name() != "ReadBytes" {
+			if engine.MethodName(cc.Method) != "Read" && engine.MethodName(cc.Method) != "ReadByte" && engine.MethodName(cc.Method) != "ReadBytes" {
 				continue
 			}
 			rd++
-			if cc.Method.Name() == "Read" {
+			if engine.MethodName(cc.Method) == "Read" {
 				// InputCollector.Read forwards a Read (io.Reader contract): allowed only as `return source.Read(p)`-style forward whose n is used
 				okFwd := engine.ShortName(top) == "Read"
 				R.Check(okFwd, "R10.4", c.name(f)+"|bare-Read", P.Pos(cs.Pos()), "Read only forwarded by the collector's own Read", "the scanner/collector calls Read directly: a short read (TCP segment boundary) could be taken for the full amount, making the parse depend on how the bytes were split")
 			} else {
-				R.Pass("R10.4", c.name(f)+"|"+cc.Method.Name(), P.Pos(cs.Pos()), "byte-wise / delimiter read")
+				R.Pass("R10.4", c.name(f)+"|"+engine.MethodName(cc.Method), P.Pos(cs.Pos()), "byte-wise / delimiter read")
 			}
 		}
 	}
